@@ -410,18 +410,40 @@ class G:
         for _ in range(steps):
             r = rng.random()
             src = rng.choice(names)
-            if r < 0.18:      # 令 y = x
+            if r < 0.08 and shapes[src] != 'O':
+                # a literal that mentions a variable: 令 y = 【x，1】 / 【k = x】 / y = 【x】 (the embedded value is a copy too)
+                import copy as _copy
+                k = rng.random()
+                if k < 0.4:
+                    lit, sh = Arr([Var(src), Num(str(self.fresh()))]), ['L', _copy.deepcopy(shapes[src]), 'S']
+                elif k < 0.7:
+                    lit, sh = Dict([(Var('a'), Var(src)), (Var('b'), Num('0'))]), ['D', ('a', _copy.deepcopy(shapes[src])), ('b', 'S')]
+                else:
+                    lit, sh = Arr([Arr([Var(src)])]), ['L', ['L', _copy.deepcopy(shapes[src])]]
+                if rng.random() < 0.7 or len(names) < 2:
+                    n = new_name()
+                    shapes[n] = sh
+                    body.append(Decl([n], lit, const=rng.random() < 0.2))
+                else:
+                    dst = rng.choice([x for x in names if x != src])
+                    shapes[dst] = sh
+                    body.append(ExprS(Assign(Var(dst), lit)))
+            elif r < 0.18:      # 令 y = x
                 n = new_name()
-                shapes[n] = shapes[src]
+                import copy as _copy
+                shapes[n] = _copy.deepcopy(shapes[src])
                 body.append(Decl([n], Var(src)))
             elif r < 0.26:    # 令 y、z = x
                 n1, n2 = new_name(), new_name()
-                shapes[n1] = shapes[n2] = shapes[src]
+                import copy as _copy
+                shapes[n1] = _copy.deepcopy(shapes[src])
+                shapes[n2] = _copy.deepcopy(shapes[src])
                 body.append(Decl([n1, n2], Var(src)))
             elif r < 0.38:    # y = x (existing)
                 dst = rng.choice(names)
                 if dst != src:
-                    shapes[dst] = shapes[src]
+                    import copy as _copy
+                    shapes[dst] = _copy.deepcopy(shapes[src])
                     body.append(ExprS(Assign(Var(dst), Var(src))))
             elif r < 0.50:    # c#i = x   (element assignment stores a copy)
                 dst = rng.choice(names)
@@ -665,6 +687,124 @@ class G:
         if handler_at == 0:
             catches.append((hcls, [ExprS(Call('显示', [Str('主拦')])), Ret(Num('55'))]))
         return Program([], body + main, catches), {}
+
+    # ---- collections through the interpreter (C12 program stream) ------------------------------------
+    def coll_program(self, steps):
+        """one list and one dictionary (and copies of them) driven through Zn syntax: every mutating and observing
+        member, indexed/keyed reads and writes (also out of range / missing), 遍历 traces, 所有索引/所有值, display"""
+        rng = self.rng
+
+        def val():
+            k = rng.random()
+            if k < 0.5:
+                return Num(rng.choice(SMALL_INTS))
+            if k < 0.7:
+                return Str(rng.choice(TEXTS))
+            if k < 0.85:
+                return Var('空')
+            return Var(rng.choice(['真', '假']))
+
+        lists, dicts = ['列'], ['典']
+        n0 = rng.randint(0, 3)
+        k0 = rng.sample(KEYS, rng.randint(0, 3))
+        body = [Decl(['列'], Arr([val() for _ in range(n0)])),
+                Decl(['典'], Dict([(Str(k), val()) for k in k0]))]
+        ln = {'列': n0}
+        ks = {'典': list(k0)}
+
+        def observe():
+            out = []
+            for l in lists:
+                out.append(ExprS(Call('显示', [Var(l), Prop(Var(l), '长度'), Prop(Var(l), '首项'), Prop(Var(l), '末项')])))
+            for d in dicts:
+                out.append(ExprS(Call('显示', [Var(d), Prop(Var(d), '长度'), Prop(Var(d), '所有索引'), Prop(Var(d), '所有值')])))
+            return out
+
+        def idx(l):
+            # mostly a valid 1-based position, sometimes 0 / beyond the end
+            if ln[l] > 0 and rng.random() < 0.88:
+                return rng.randint(1, ln[l])
+            return rng.choice([0, ln[l] + 1, ln[l] + 3])
+
+        def key(d, want_present):
+            if ks[d] and (want_present or rng.random() < 0.5):
+                return rng.choice(ks[d])
+            return rng.choice(KEYS)
+
+        dead = False
+        for _ in range(steps):
+            if dead:
+                break
+            r = rng.random()
+            l, d = rng.choice(lists), rng.choice(dicts)
+            if r < 0.12:
+                body.append(ExprS(MCall(Var(l), [(rng.choice(['后增', '前增']), [val()])])))
+                ln[l] += 1
+            elif r < 0.2:
+                body.append(ExprS(Call('显示', [MCall(Var(l), [(rng.choice(['左移', '右移']), [])])])))
+                ln[l] = max(0, ln[l] - 1)
+            elif r < 0.26:
+                i, j = idx(l), idx(l)
+                body.append(ExprS(MCall(Var(l), [('交换', [Num(str(i)), Num(str(j))])])))
+                dead = not (1 <= i <= ln[l] and 1 <= j <= ln[l])
+            elif r < 0.32:
+                i = idx(l)
+                body.append(ExprS(Assign(Index(Var(l), Num(str(i))), val())))
+                dead = not (1 <= i <= ln[l])
+            elif r < 0.38:
+                i = idx(l)
+                body.append(ExprS(Call('显示', [Index(Var(l), Num(str(i)))])))
+                dead = not (1 <= i <= ln[l])
+            elif r < 0.44:
+                body.append(ExprS(Call('显示', [MCall(Var(l), [(rng.choice(['包含', '寻找']), [val()])]), Prop(Var(l), '逆序')])))
+            elif r < 0.5:
+                o = rng.choice(lists)
+                body.append(ExprS(MCall(Var(l), [('合并', [Arr([val()]), Var(o)])])))
+                ln[l] += 1 + ln[o]
+            elif r < 0.62:
+                k = key(d, False)
+                body.append(ExprS(Assign(Index(Var(d), Str(k)), val())))
+                if k not in ks[d]:
+                    ks[d].append(k)
+            elif r < 0.7:
+                k = key(d, False)
+                body.append(ExprS(Call('显示', [MCall(Var(d), [('移除', [Str(k)])])])))
+                if k in ks[d]:
+                    ks[d].remove(k)
+            elif r < 0.76:
+                k = key(d, rng.random() < 0.85)
+                body.append(ExprS(Call('显示', [Index(Var(d), Str(k))])))
+                dead = k not in ks[d]
+            elif r < 0.8:
+                body.append(ExprS(Call('显示', [MCall(Var(d), [('读取', [Str(key(d, False))])])])))
+            elif r < 0.84:
+                k = key(d, False)
+                body.append(ExprS(MCall(Var(d), [('写入', [Str(k), val()])])))
+                if k not in ks[d]:
+                    ks[d].append(k)
+            elif r < 0.9:
+                # copies: later changes through one name never show through the other
+                if rng.random() < 0.3:
+                    n, n2 = '列%d' % self.fresh(), '列%d' % self.fresh()
+                    body.append(Decl([n, n2], Var(l)))      # each name its own copy
+                    lists += [n, n2]
+                    ln[n] = ln[n2] = ln[l]
+                elif rng.random() < 0.5:
+                    n = '列%d' % self.fresh()
+                    body.append(Decl([n], Var(l)))
+                    lists.append(n)
+                    ln[n] = ln[l]
+                else:
+                    n = '典%d' % self.fresh()
+                    body.append(Decl([n], Var(d)))
+                    dicts.append(n)
+                    ks[n] = list(ks[d])
+            elif r < 0.95:
+                body.append(Iter(['键', '值'], Var(d), [ExprS(Call('显示', [Var('键'), Var('值')]))]))
+            else:
+                body.append(Iter(['序', '项'], Var(l), [ExprS(Call('显示', [Var('序'), Var('项')]))]))
+            body += observe()
+        return Program([], body), {}
 
     # ---- scoping (C06) ---------------------------------------------------------------------------
     def scope_program(self):
